@@ -4,6 +4,31 @@ Run only when the rules have been re-confirmed against the tree: the inventory i
 import json, os, sys
 sys.path.insert(0, os.path.join(os.path.dirname(os.path.abspath(__file__)), '..', 'engines', 'rules'))
 import facts, names
+def boolinit(j):
+    """{struct: {bool field: {function that gives it a constant: that constant}}} - what tells which variant of a two-variant enum stands
+    for `true` when a flag is turned into one (Facts.resolve_flags)"""
+    acc = {}
+    adts = j['adts']
+    for f in j['fns']:
+        if f['kind'] not in ('fn', 'assoc'):
+            continue
+        for b in (f.get('body') or {}).get('blocks', []):
+            for s in b['stmts']:
+                rv = s.get('rv', {})
+                if rv.get('agg') == 'adt' and adts.get(rv.get('adt'), {}).get('local') and adts[rv['adt']]['kind'] == 'struct':
+                    for name, op in zip(rv.get('fields', []), rv.get('ops', [])):
+                        c = op.get('c') if isinstance(op, dict) else None
+                        if c and c.get('ty') == 'bool' and 'bool' in c:
+                            acc.setdefault(rv['adt'], {}).setdefault(name, {}).setdefault(f['def'], set()).add(bool(c['bool']))
+    res = {}
+    for a, fs in acc.items():
+        for n, m in fs.items():
+            mm = {d: list(v)[0] for d, v in m.items() if len(v) == 1}
+            if mm:
+                res.setdefault(a, {})[n] = mm
+    return res
+
+
 out = {}
 for crate in ('unimock', 'unimock_macros'):
     inv = {'fns': {}, 'adts': {}}
@@ -17,6 +42,7 @@ for crate in ('unimock', 'unimock_macros'):
                 inv[k].setdefault(d, v)
         vocab |= names.vocabulary(txt)
     inv['vocab'] = sorted(vocab)
+    inv['boolinit'] = boolinit(json.loads(open(facts.raw_path('std', crate)).read().replace('alloc::alloc::', 'std::')))
     out[crate] = inv
     print(crate, len(inv['fns']), 'fns', len(inv['adts']), 'adts', len(vocab), 'identifiers')
 json.dump(out, open(names.BASELINE, 'w'), indent=0, sort_keys=True)
